@@ -38,11 +38,27 @@ def go_env():
     return e
 
 
+def _big_stack():
+    # coqc prints/reads back unary nat values (case ids of the thorough tiers reach 10^5) recursively: with the default
+    # 8 MB stack that is a "Stack overflow".  Raise the soft limit as far as the hard limit allows (at most 4 GB).
+    import resource
+    soft, hard = resource.getrlimit(resource.RLIMIT_STACK)
+    want = 4 << 30
+    if hard != resource.RLIM_INFINITY:
+        want = min(want, hard)
+    if soft == resource.RLIM_INFINITY or soft >= want:
+        return
+    try:
+        resource.setrlimit(resource.RLIMIT_STACK, (want, hard))
+    except (ValueError, OSError):
+        pass
+
+
 def sh(cmd, timeout=600, cwd=None, env=None, inp=None):
     """Run a command; returns (rc, stdout+stderr). rc = 124 on timeout."""
     try:
         p = subprocess.run(cmd, cwd=cwd, env=env, input=inp, stdout=subprocess.PIPE, stderr=subprocess.STDOUT,
-                           timeout=timeout, shell=isinstance(cmd, str))
+                           timeout=timeout, shell=isinstance(cmd, str), preexec_fn=_big_stack)
         return p.returncode, p.stdout.decode("utf-8", "replace")
     except subprocess.TimeoutExpired as ex:
         out = ex.stdout.decode("utf-8", "replace") if ex.stdout else ""
